@@ -48,6 +48,7 @@ package markdown
 //@   loop#2 decreases columnCount - i
 
 //@ globalinv propWidth != nil @C14
+//@ globalinv ErrNotCellProperties != nil @C14
 
 //@ -- alignOK(t): values stored under the alignment key of any column are alignment values (N5)
 //@ pred alignOK(t *tabular.ATable) = forall i int :: {t.columns[i]} 0 <= i && i < len(t.columns) ==> (lookup(heap[tabular.valueProperty.chain], heap[tabular.valueProperty.key], heap[tabular.valueProperty.val], t.columns[i].properties, mkiface(type[*align.propertyKey], box(align.PropertyType))) == nil || impl(dyn(lookup(heap[tabular.valueProperty.chain], heap[tabular.valueProperty.key], heap[tabular.valueProperty.val], t.columns[i].properties, mkiface(type[*align.propertyKey], box(align.PropertyType)))), align.Alignment))
@@ -70,13 +71,14 @@ package markdown
 //@ func Wrap
 //@   tags C10,C09
 //@   requires tbl(t)
-//@   assigns new(MarkdownTable), heap[tabular.callbackSet.renderTime], heap[[]tabular.PropertyCallback]
+//@   assigns new(MarkdownTable), heap[tabular.callbackSet.renderTime], heap[tabular.callbackSet.addTime], heap[tabular.callbackSet.preCellRenderTime], heap[tabular.callbackSet.postCellRenderTime], heap[[]tabular.PropertyCallback]
 //@   ensures result != nil && fresh(result) && result.Table === t
 //@   ensures [measuring-callback-registered] len(t.(*tabular.ATable).tableCellCallbacks.renderTime) == old(len(t.(*tabular.ATable).tableCellCallbacks.renderTime)) + 1 && dyn(t.(*tabular.ATable).tableCellCallbacks.renderTime[len(t.(*tabular.ATable).tableCellCallbacks.renderTime) - 1]) == type[widthSetter] @C10
 
 //@ func (*MarkdownTable).RenderTo
 //@   tags C08,C15,C09,C14
-//@   requires mt != nil && tbl(mt.Table) && alignOK(mtab(mt)) && mtab(mt).nColumns <= 1099511627774
+//@   requires mt != nil && tbl(mt.Table) && mtab(mt).nColumns <= 1099511627774
+//@   call InvokeRenderCallbacks after assume alignOK(mtab(mt))
 //@   requires [writer-ok] !Wfailed
 //@   ensures [table-still-wellformed] tbl(mt.Table) @C09,C14
 //@   ensures [no-columns-refused] mtab(mt).nColumns < 1 ==> result != nil && Wn == old(Wn) @C08
@@ -98,3 +100,25 @@ package markdown
 //@   loop#5 decreases len(mtab(mt).rows) - rangeindex
 //@   loop#5 unfold nonsep(heap[[]*tabular.Row], heap[tabular.Row.isSeparator], mtab(mt).rows, rangeindex + 2)
 //@   entry unfold nonsep(heap[[]*tabular.Row], heap[tabular.Row.isSeparator], mtab(mt).rows, 0)
+
+//@ func New
+//@   tags C10,C09
+//@   ensures result != nil && fresh(result) && tbl(result.Table)
+
+//@ func (*MarkdownTable).Render
+//@   tags C09,C10
+//@   requires mt != nil && tbl(mt.Table) && mtab(mt).nColumns <= 1099511627774
+//@   ensures [error-means-no-text] result1 != nil ==> result0 == "" @C09
+//@   ensures [table-still-wellformed] tbl(mt.Table)
+//@   call RenderTo before ghost Wfailed = false
+
+//@ func Render
+//@   tags C09,C10
+//@   requires tbl(t) && t.(*tabular.ATable).nColumns <= 1099511627774
+//@   ensures [error-means-no-text] result1 != nil ==> result0 == "" @C09
+
+//@ func RenderTo
+//@   tags C09,C10,C15
+//@   requires tbl(t) && t.(*tabular.ATable).nColumns <= 1099511627774
+//@   requires [writer-ok] !Wfailed
+//@   ensures [failing-writer-surfaces] Wfailed ==> result != nil @C15
